@@ -144,6 +144,11 @@ func editCases(rep *report, r *rng, tc codecCase, s string, unmarshalCase func(c
 		// the oracle speaks for layouts in the unambiguous class and for the shipped structs (outside it the
 		// textual ambiguities of DESIGN.md 5.2 apply; those strings are still compared with the model)
 		if !(tc.class || strings.HasPrefix(tc.tname, "S")) {
+			// search support: recorded with the case; it becomes the concrete failing input if, and only if, the
+			// implementation disagrees with the model on this very string
+			if ok, why := sameUpToRespelling(e, c); !ok && lastCaseMeta != nil && lastCaseMeta["hash"] == e {
+				lastCaseMeta["property_fails"] = fmt.Sprintf("accepted %q, canonical marshalling of the returned value %q: %s", e, c, why)
+			}
 			return
 		}
 		if ok, why := sameUpToRespelling(e, c); !ok {
